@@ -223,6 +223,18 @@ def _is_opaque_call(n, local_names):
 
 def _features(node, local_names) -> Counter:
     c = Counter()
+    # names bound inside the expression itself (comprehension targets, lambda parameters) are local wherever the
+    # expression came from - in particular when it was inlined from a private predicate helper
+    bound = set()
+    for n in ast.walk(node):
+        if isinstance(n, ast.comprehension):
+            bound |= {x.id for x in ast.walk(n.target) if isinstance(x, ast.Name)}
+        elif isinstance(n, ast.Lambda):
+            bound |= {a.arg for a in n.args.args}
+    if bound - set(local_names):
+        merged = Names(set(local_names) | bound)
+        merged.opaque = getattr(local_names, "opaque", frozenset())
+        local_names = merged
 
     def walk(n):
         if _is_opaque_call(n, local_names):
